@@ -191,6 +191,8 @@ pub struct Interp<'a> {
     pub qnodes_rt: BTreeMap<usize, QNodeRt>,
     pub reply_lookup: BTreeMap<(String, u64, Vec<u8>), usize>,
     pub trace: Vec<TraceEntry>,
+    /// number of failures met before each trace entry was pushed
+    pub fail_before: Vec<usize>,
     /// whys[i] explains why trace position i (or the end of the trace) looks the way it does
     pub whys: Vec<(usize, Why)>,
     pub sites: Vec<Site>,
@@ -214,6 +216,7 @@ impl<'a> Interp<'a> {
             qnodes_rt: BTreeMap::new(),
             reply_lookup: BTreeMap::new(),
             trace: vec![],
+            fail_before: vec![],
             whys: vec![],
             sites: vec![],
             failures: 0,
@@ -425,6 +428,7 @@ impl<'a> Interp<'a> {
                 };
                 // the query entry point runs (trace entry) and reads the *view*
                 let idx = self.trace.len();
+                self.fail_before.push(self.failures);
                 self.trace.push(TraceEntry {
                     kind: Kind::Query,
                     code_tag: code.tag,
@@ -481,14 +485,22 @@ impl<'a> Interp<'a> {
     #[allow(clippy::too_many_arguments)]
     fn run_node(&mut self, kind: Kind, addr: &str, node_idx: Option<usize>, sender: Option<&str>, funds: &[Coin], reply: Option<ReplyRec>, depth: usize) -> R<(Vec<(String, String)>, Vec<(String, Vec<(String, String)>)>, Option<Vec<u8>>, Vec<Sub>, Vec<SubMsg<XMsg>>)> {
         self.max_depth = self.max_depth.max(depth);
-        let ci = self.st.contracts.get(addr).ok_or(())?.clone();
-        let code = self.fx.codes.get(&ci.code_id).ok_or(())?.clone();
+        let Some(ci) = self.st.contracts.get(addr).cloned() else {
+            self.failures += 1;
+            return Err(());
+        };
+        let Some(code) = self.fx.codes.get(&ci.code_id).cloned() else {
+            self.failures += 1;
+            return Err(());
+        };
         if !Self::family_has(code.family, kind) {
+            self.failures += 1;
             return Err(());
         }
         let node: Option<Node> = node_idx.and_then(|n| self.tx.nodes.get(n).cloned());
         let view = self.st.clone();
         let idx = self.trace.len();
+        self.fail_before.push(self.failures);
         self.trace.push(TraceEntry {
             kind,
             code_tag: code.tag,
